@@ -246,7 +246,10 @@ pub(crate) fn with_document_scope<R>(f: impl FnOnce() -> R) -> R {
     }
     let saved = STATE.with(|state| std::mem::take(&mut *state.borrow_mut()));
     let guard = RestoreGuard(Some(saved));
+    // Likewise the fallback error location of the enclosing call must not leak into this one.
+    let fallback = crate::de_error::FallbackScopeGuard::enter();
     let result = f();
+    drop(fallback);
     drop(guard);
     result
 }
